@@ -169,11 +169,16 @@ def ThenItem.isComment : ThenItem → Bool
 def isDefaultReject (cs : List ThenItem) : Bool :=
   cs.any ThenItem.isReject && cs.all fun c => c.isReject || c.isComment
 
-def Stmt.names (s : Stmt) : List String :=
-  s.body.filterMap fun | .name _ _ span _ => some span | _ => none
+/-- the raw texts of the `<name>` children, in document order -/
+def bodyNames (bs : List BodyItem) : List String :=
+  bs.filterMap fun | .name _ _ span _ => some span | _ => none
 
-def Stmt.thens (s : Stmt) : List (List ThenItem) :=
-  s.body.filterMap fun | .then_ _ _ _ cs => some cs | _ => none
+/-- the contents of the `<then>` children, in document order -/
+def bodyThens (bs : List BodyItem) : List (List ThenItem) :=
+  bs.filterMap fun | .then_ _ _ _ cs => some cs | _ => none
+
+def Stmt.names (s : Stmt) : List String := bodyNames s.body
+def Stmt.thens (s : Stmt) : List (List ThenItem) := bodyThens s.body
 
 /-- anything that is not the name, the action or a comment -/
 def BodyItem.isOther : BodyItem → Bool
